@@ -4,7 +4,8 @@
     Model: Copyright/Glob.v (+ Fields.v); spec: Copyright/GlobSpec.v; proofs: Copyright/GlobProofs.v. *)
 From Coq Require Import String.
 From Verif Require Import Lib.Base Lib.Dec Lib.PyStr Gen.PyChars
-  Copyright.Fields Copyright.Glob Copyright.GlobSpec Copyright.GlobProofs.
+  Copyright.Fields Copyright.Glob Copyright.GlobSpec Copyright.GlobProofs
+  Copyright.GlobCheck Copyright.GlobCheckProofs.
 
 Definition is_nil {A} (l : list A) : bool := match l with [] => true | _ => false end.
 
@@ -143,6 +144,27 @@ Example C16_nonvacuous :
         RBool true; RUnit; RErr FormatError].
 Proof. vm_compute. repeat split. Qed.
 
+(** 5. The bridge between the correspondence and the property: on EVERY case of the
+       check (Copyright/GlobCheck.v: histories, direct globs_to_re calls, regex leaf
+       cases, exhaustive name sweeps) on which the implementation behaved like the
+       model ([agree]), the property as [holds] judges it on the observation, against
+       GlobSpec, is true.  No side condition: [holds] consults no observation that
+       [agree] does not compare.  (Copyright/GlobCheckProofs.v; rests on
+       [globs_to_re_fullmatch], [globs_to_re_ok_iff], [globs_to_re_rejects],
+       [fp_matches_nocache], [step_nocache], [find_last_match_doc].) *)
+Theorem C16_agree_implies_holds : forall c, agree c = true -> holds c = true.
+Proof. exact agree_implies_holds. Qed.
+
+(** Non-vacuity: a history (find, then a matches call that hits the cache) and a
+    sweep over all names of length <= 1 satisfy [agree]. *)
+Example C16_agree_nonvacuous :
+  agree (CHist [IFiles (Some "src/* a?")] [COFind "src/x"; COMatch 0 "ab"; COFind ""]
+           [mkObs [Some "src/* a?"] (RIdx (Some 0%nat)); mkObs [Some "src/* a?"] (RBool true);
+            mkObs [Some "src/* a?"] (RIdx None)]
+           [PatOk "src/.*|a.\00005cZ" true true]) = true
+  /\ agree (CSweep 1 (Some "a*") (SwBits "400")) = true.
+Proof. vm_compute. repeat split. Qed.
+
 Print Assumptions C16_matches_iff_some_glob.
 Print Assumptions C16_valid_globs_convert.
 Print Assumptions C16_no_pattern_edge.
@@ -157,3 +179,4 @@ Print Assumptions C16_last_match_is_last.
 Print Assumptions C16_last_match_none.
 Print Assumptions C16_cache_transparent.
 Print Assumptions C16_fresh_cache_ok.
+Print Assumptions C16_agree_implies_holds.
